@@ -88,6 +88,18 @@ def diskWrappers : List (String × String) :=
 /-- async_disk.BlockSize, evaluated -/
 def asyncBlockSize : Nat := 4096
 
+/-- how every MemDisk method uses the lock `l` protecting `blocks` -/
+def memDiskLocks : List (String × String) :=
+  [("MemDisk.Barrier", "none"),
+   ("MemDisk.Close", "none"),
+   ("MemDisk.Read", "none"),
+   ("MemDisk.ReadTo", "R"),
+   ("MemDisk.Size", "none:uses blocks"),
+   ("MemDisk.Write", "W-late:1")]
+
+/-- functions that assign the field `blocks` of MemDisk (constructor only: Size may read it lock-free) -/
+def blocksAssignSites : List String := ["NewMemDisk"]
+
 /-- async_disk's exported type names, resolved -/
 def asyncTypes : List (String × String) :=
   [("Block", "alias=true []byte"),
